@@ -83,7 +83,14 @@ Section Patcher.
     else if so_type o =? T_DATA then w_write w (so_data o)
     else Err.
 
-  (** isFullFileOp (indexes targetContainer.Files[op.FileIndex] unchecked) *)
+  (** validateOp (repo commit "fix: patcher returns an error for block range ops whose file index
+      is outside the target container"): true = nil *)
+  Definition validate_op (o : sync_op) : bool :=
+    if so_type o =? T_BLOCK_RANGE
+    then (0 <=? so_file o) && (so_file o <? Z.of_nat (length (c_files oldC)))
+    else true.
+
+  (** isFullFileOp (indexes targetContainer.Files[op.FileIndex]; validateOp ran before) *)
   Definition is_full_file_op (idx : Z) (o : sync_op) : res bool :=
     if negb (so_type o =? T_BLOCK_RANGE) then Ok false
     else if negb (so_block o =? 0) then Ok false
@@ -124,6 +131,7 @@ Section Patcher.
     | [] => Err
     | m :: r => let o := as_so m in
                 if so_type o =? HEY then Ok (r, w_st w)
+                else if negb (validate_op o) then Err
                 else bind (apply_op w o) (fun w' => relay r w')
     end.
 
@@ -132,6 +140,7 @@ Section Patcher.
     | [] => Err
     | m :: r =>
       let o := as_so m in
+      if negb (validate_op o) then Err else
       bind (is_full_file_op idx o) (fun full =>
       if full then
         bind (transpose s idx (so_file o)) (fun s' =>
@@ -170,6 +179,9 @@ Section Patcher.
     | [] => Err
     | m :: r =>
       let tgt := bh_target (as_bh m) in
+      (* repo commit "fix: patcher returns an error for a bsdiff header whose target index is
+         outside the target container" *)
+      if (tgt <? 0) || (tgt >=? Z.of_nat (length (c_files oldC))) then Err else
       let s1 := ev s (EvRead tgt) in
       bind (pool_open tgt) (fun old =>
       bind (open_writer s1 idx) (fun w =>
